@@ -367,7 +367,24 @@ def rule_eq_hash(ctx, R):
                         a0 = N(x[3][0])
                         if a0 in (("ref", ("field", ("deref", SELF), "inner")), sf("inner")):
                             ok = True
-            R.check(ok, "C14-R6", "%s::%s|delegates" % (typed, m), "%s on the typed handle is %s on .inner" % (m, m), "%s::%s does not delegate to the inner dynamic handle" % (typed, m), where_of(fs[0]), fn=fs[0].key)
+            if not ok and m == "eq":
+                # ... or compares every field of .inner itself (e.g. as tuples): the same relation
+                inner_cmp = set()
+                for p in ps or ():
+                    if p.end != "return" or N(p.ret) == ("const", False):
+                        continue
+                    for v_ in [N(c[0]) for c in p.conds] + [N(p.ret)]:
+                        for st in subterms(v_):
+                            if st[0] in ("load", "ref"):
+                                L = st[1]
+                                chain = []
+                                while L[0] == "field":
+                                    chain.append(L[2])
+                                    L = L[1]
+                                if L == ("deref", SELF) and len(chain) >= 2 and chain[-1] == "inner":
+                                    inner_cmp.add(chain[-2])
+                ok = bool(allf) and inner_cmp == allf
+            R.check(ok, "C14-R6", "%s::%s|delegates" % (typed, m), "%s on the typed handle is %s on .inner (or compares every field of .inner)" % (m, m), "%s::%s neither delegates to the inner dynamic handle nor compares all of its fields" % (typed, m), where_of(fs[0]), fn=fs[0].key)
 
 
 def rule_id_bits_inert(ctx, R):
